@@ -48,7 +48,7 @@ m={
  "hooks":{"guard":"xot_verif","enable":"none needed: the simulator builds /repo/src through the shadow manifest /verif/sim/shadow/Cargo.toml (package `xot`, lib path /repo/src/lib.rs, ahash with no-rng) and uses only public seams (impl Write, byte slices, Xot: Clone, ahash::random_state::set_random_source)","baseline_off_cmd":"cd /repo && cargo test --workspace --no-fail-fast --offline","source_commits":[],"add_only":True},
  "engines":[{"name":"xotsim","path":"/verif/sim","serves_properties":[c["property_id"] for c in checks],"kind_free_text":"deterministic simulator: seeded scheduler over logical clients of one shared Xot, reference model, fault injection (refused calls, failed parses, stale handles, sink faults, damaged documents, store forks, hash seeds), minimisation and exact replay"}],
  "checks":checks,
- "notes":"See DESIGN.md. Known findings and fixed defects: known_findings.json. Fix commits in /repo start with 'fix:'. Seeded breaking changes and which check catches them: seeded/*/meta.json.",
+ "notes":"See DESIGN.md. Known findings and fixed defects: known_findings.json (one open finding, KF1 for C04: handle aliasing after 32 768 reuses of one arena slot - the C04 check prints a KNOWN-FINDING line for it and exits 0). Fix commits in /repo start with 'fix:'. Seeded breaking changes and which check catches them: seeded/*/meta.json.",
  "not_applicable":[{"property_id":k,"reason":v} for k,v in NA.items()],
 }
 json.dump(m,open('/verif/MANIFEST.json','w'),indent=1)
